@@ -92,6 +92,8 @@ def build_op(s):
         return qp.exp(build_op(s["base"]), param(s["c"]))
     if kind == "lincomb":
         return qp.ops.LinearCombination([param(c) for c in s["coeffs"]], [build_op(o) for o in s["operands"]])
+    if kind == "Snapshot":
+        return qp.Snapshot(s.get("kw", {}).get("tag"))
     cls = getattr(qp, kind, None) or getattr(qp.ops, kind, None) or getattr(qp.templates, kind)
     ps = [param(p) for p in s.get("p", [])]
     kw = {k: (param(v) if isinstance(v, (dict, list)) and k not in ("control_values", "work_wires", "pauli_word") else v)
